@@ -10,12 +10,15 @@ A property's B-specification is a python file specs/<id>/b_spec.py with a functi
 verification conditions through the small API of class B below; each VC becomes one SMT-LIB2 query
 (check-sat of assumptions and the negated goal); `unsat` from any of z3 / z3-new / cvc5 discharges it.
 """
-import os, sys, re, json, time, subprocess, itertools, importlib.util, concurrent.futures as cf, hashlib
+import shutil, os, sys, re, json, time, subprocess, itertools, importlib.util, concurrent.futures as cf, hashlib
 import front
 from front import ExtractError
 
 VERIF = os.path.dirname(os.path.dirname(os.path.abspath(__file__)))
 SOLVERS = [('z3', ['z3', '-smt2']), ('z3-new', ['z3-new', '-smt2']), ('cvc5', ['cvc5', '--lang', 'smt2'])]
+# fourth member: exact polynomial arithmetic (identity modulo the asserted equalities => unsat; exact rational model => sat), see tools/polyid.py
+if shutil.which('python3-vt'):
+    SOLVERS.append(('polyid', ['python3-vt', os.path.join(os.path.dirname(os.path.abspath(__file__)), 'polyid.py')]))
 
 
 # ----------------------------------------------------------------------------------------
